@@ -17,12 +17,13 @@ MAXL = (6000, 10)
 
 @obligation(funcs=["storage.db.Subscription.build_query"], timeout=(120, 600),
             bounds="1-2 filters with client limits by symbolic selector from {0,1,5,6000,6001,10^6,absent}, configured max_limit "
-                   "from {6000, 10}: the statement orders by created_at DESC and its LIMIT is min(n, max_limit) for a single "
+                   "from {6000, 10}, filter shape from {kinds, ids only, authors, tag}: the statement orders by created_at DESC and its LIMIT is min(n, max_limit) for a single "
                    "filter, never above max_limit; for two filters it must serve the larger of the two effective limits at most")
-def ob_sql_limit(l1: int, l2: int, two: bool, m: int) -> str:
+def ob_sql_limit(l1: int, l2: int, two: bool, m: int, shape: int) -> str:
     """
     pre: 0 <= l1 < 7 and 0 <= l2 < 7 and 0 <= m < 2
     pre: two or l2 == 0
+    pre: 0 <= shape < 4
     post: _.startswith("ok")
     """
     logging.disable(logging.CRITICAL)
@@ -32,8 +33,16 @@ def ob_sql_limit(l1: int, l2: int, two: bool, m: int) -> str:
     sub = S.subscription(default_limit=maxl)
 
     def q(n):
-        return NostrQuery.model_construct(ids=None, authors=None, kinds=[1], since=None, until=None, search=None, tags=None,
-                                          limit=maxl if n is None else n)
+        kw = dict(ids=None, authors=None, kinds=None, since=None, until=None, search=None, tags=None)
+        if shape == 0:
+            kw["kinds"] = [1]
+        elif shape == 1:
+            kw["ids"] = ["ab" * 32, "cd" * 32]       # pure id lookup
+        elif shape == 2:
+            kw["authors"] = ["ab" * 32]
+        else:
+            kw["tags"] = [("e", ["x"])]
+        return NostrQuery.model_construct(limit=maxl if n is None else n, **kw)
 
     filters = [q(n1)] + ([q(n2)] if two else [])
     text, _ = sub.build_query(filters)
